@@ -95,6 +95,7 @@ class Program:
                     continue
                 if fn.endswith(".py") or fn.endswith(".pyx"):
                     paths.append(os.path.relpath(os.path.join(dp, fn), self.root))
+        raw = []
         for rel in paths:
             if rel in self.overlay:
                 text = self.overlay[rel]
@@ -105,18 +106,33 @@ class Program:
             name = name.replace(os.sep, ".")
             if name.endswith(".__init__"):
                 name = name[: -len(".__init__")]
+            info = None
             if rel.endswith(".pyx"):
                 try:
                     _, tree, info = pyxfront.desugar(text, rel)
                 except pyxfront.PyxError as e:
                     raise AnalysisIncomplete("PYXFRONT", rel, str(e))
-                mod = Module(name, rel, text, _norm(tree, pyx=True), pyx=info)
             else:
                 try:
                     tree = ast.parse(text, filename=rel)
                 except SyntaxError as e:
                     raise AnalysisIncomplete("PARSE", rel, "syntax error line %s: %s" % (e.lineno, e.msg))
-                mod = Module(name, rel, text, _norm(tree))
+            raw.append((name, rel, text, tree, info))
+        # package-level normalisations (sa/prenorm.py): named constants, one spelling per call with a known signature
+        from . import prenorm
+        trees = {name: tree for name, rel, text, tree, info in raw}
+        if not os.environ.get("SA_NO_PRENORM"):
+            prenorm.propagate_constants({n: t for n, t in trees.items()})
+            prenorm.REGISTRY = prenorm.build_registry(trees)
+            for t in trees.values():
+                prenorm.normalize_calls(t)
+        from .idioms import normalize_loops
+        for name, rel, text, tree, info in raw:
+            if info is None:
+                for n in ast.walk(tree):
+                    if isinstance(n, (ast.FunctionDef, ast.AsyncFunctionDef)):
+                        normalize_loops(n)
+            mod = Module(name, rel, text, _norm(tree, pyx=info is not None), pyx=info)
             self.modules[name] = mod
             self.by_path[rel] = mod
         self._inline_new_helpers()
@@ -138,7 +154,8 @@ class Program:
                         # substitution can expose idioms (x = np.unique(ids); x.size): normalise again
                         from .idioms import normalize
                         from .inline import _relink
-                        fn.body = [normalize(st) for st in fn.body]
+                        from .prenorm import normalize_calls
+                        fn.body = [normalize(normalize_calls(st)) for st in fn.body]
                         _relink(fn, getattr(fn, "_parent", None), m)
 
     def _inline_new_helpers(self):
